@@ -198,3 +198,63 @@ def problem_call(**inp):
             problems.append(f"history {got} is not the last {k} evaluations {exp}")
     return {"reproduced": bool(problems), "problems": problems,
             "observed": {"filter_before": list(zip(Fl, Ml)), "new": (fnew, mnew), "filter_after": list(zip(Fn, Mn))}}
+
+
+# ---- Problem.best_eval ----------------------------------------------------------------------------------------
+def _select_spec(Fl, Ml, tol, pen):
+    """Index that the documented selection rule prescribes (written from the property statement)."""
+    n = len(Fl)
+    isn = lambda v: v != v
+    feas = [(not isn(m)) and m <= tol for m in Ml]
+    deff = [not isn(f) for f in Fl]
+    fin = [(not isn(m)) and math.isfinite(m) for m in Ml]
+
+    def last_of(keys, idx):
+        best = None
+        for j in idx:
+            if best is None or keys(j) <= keys(best):
+                best = j
+        return best
+    fd = [j for j in range(n) if feas[j] and deff[j]]
+    if fd:
+        return last_of(lambda j: (Fl[j], Ml[j]), fd)
+    fe = [j for j in range(n) if feas[j]]
+    if fe:
+        return fe[-1]
+    with np.errstate(all="ignore"):
+        mer = [float(np.float64(Fl[j]) + np.float64(pen) * np.float64(Ml[j])) if fin[j] else math.nan for j in range(n)]
+    md = [j for j in range(n) if fin[j] and not isn(mer[j])]
+    if any(fin):
+        if md:
+            return last_of(lambda j: (mer[j], Ml[j], Fl[j] if deff[j] else math.inf), md)
+        dm = [j for j in range(n) if not isn(Ml[j])]
+        return last_of(lambda j: (Ml[j],), dm)
+    df = [j for j in range(n) if deff[j]]
+    if df:
+        return last_of(lambda j: (Fl[j],), df)
+    return n - 1
+
+
+def best_eval(**inp):
+    from cobyqa.problem import Problem
+    if not isinstance(inp.get("F"), list) or not isinstance(inp.get("M"), list) or not inp["F"]:
+        return {"reproduced": False, "reason": "model too large / empty filter"}
+    Fl = [F(v) for v in inp["F"]]
+    Ml = [F(v) for v in inp["M"]]
+    n = min(len(Fl), len(Ml))
+    Fl, Ml = Fl[:n], Ml[:n]
+    tol, pen = F(inp["feasibility_tol"]), F(inp["penalty"])
+    pb = Problem.__new__(Problem)
+    pb._fun_filter, pb._maxcv_filter = list(Fl), list(Ml)
+    pb._x_filter = [np.array([float(i)]) for i in range(n)]
+    pb._feasibility_tol = tol
+
+    class _B:
+        def project(self, x): return x
+    pb._bounds = _B()
+    with np.errstate(all="ignore"):
+        x, f, m = pb.best_eval(pen)
+    got = int(x[0])
+    exp = _select_spec(Fl, Ml, tol, pen)
+    return {"reproduced": got != exp, "observed": {"filter": list(zip(Fl, Ml)), "tol": tol, "penalty": pen, "returned_index": got,
+                                                   "prescribed_index": exp}}
